@@ -62,7 +62,9 @@ def run_property(pid, tier, plan, check_mod, level="model_checking", rule="", as
     per_world = {}
     capped = []
     try:
-        for world, alphabet, depth in plan:
+        for entry in plan:
+            world, alphabet, depth = entry[:3]
+            seed_depth = entry[3] if len(entry) > 3 else None
             left = None
             if budget_s:
                 left = max(5.0, budget_s - (time.time() - t0))
@@ -71,7 +73,7 @@ def run_property(pid, tier, plan, check_mod, level="model_checking", rule="", as
             else:
                 o = dict(explore_opts or {})
                 o["shadow_min_len"] = depth   # (C17) a deepest history's shadow replay covers all its prefixes
-                r = ex.explore(world, alphabet, depth, check_mod, budget_s=left, opts=o)
+                r = ex.explore(world, alphabet, depth, check_mod, budget_s=left, opts=o, seed_depth=seed_depth)
             tot["states"] += r["states"]
             tot["transitions"] += r["transitions"]
             tot["histories"] += r["histories"]
